@@ -22,6 +22,7 @@ pub(crate) use me_code::*;
 pub fn get_message(squitter: &str) -> Option<Vec<u32>> {
     clean_squitter(squitter)
         .filter(|message| matches!(message.len(), 14 | 28))
+        .filter(|message| (message[0] < 8) == (message.len() == 14))
         .filter(|message| reminder(message) == 0)
 }
 
